@@ -97,6 +97,14 @@ def _run(spec, fault=None):
     import gtirb
     built.self_loops = {e.target for e in built.ir.cfg
                         if not (e.label and e.label.type == gtirb.Edge.Type.Fallthrough)}
+    # ... and control flow into a block that is deleted as a whole is
+    # redirected to the next block, which inherits the reason
+    rev = {id(b): g for g, b in built.blocks.items()}
+    for _name, idxs in case.sections:
+        for k, g in enumerate(idxs):
+            if built.blocks[g] in built.self_loops and g in exp.deleted_blocks and g not in exp.proxy_blocks \
+                    and k + 1 < len(idxs) and case.blocks[idxs[k + 1]].code:
+                built.self_loops.add(built.blocks[idxs[k + 1]])
     built.had_referent = {s: s.referent is not None for s in built.module.symbols}
     err = None
     try:
